@@ -414,8 +414,9 @@ class Report:
             "violations": len(self.violations),
         }
         EVID.mkdir(exist_ok=True)
-        with open(EVID / f"{self.pid}.json", "w") as f:
-            json.dump(ev, f, indent=1, default=str)
+        if not getattr(self, "is_replay", False):     # a --replay run re-examines one case: it does not describe the check's coverage
+            with open(EVID / f"{self.pid}.json", "w") as f:
+                json.dump(ev, f, indent=1, default=str)
         for v, p in zip(self.violations, replay_paths):
             print(f"VIOLATION property={self.pid} replay={p}")
             print(f"  what: {v['what']}")
